@@ -38,6 +38,18 @@ Section C01.
       declared_layout tok = Some (a_layout a).
   Proof. exact (decode_authentic b64dec parse_header parse_ident unmarshal_ok issuer_of verify role_of). Qed.
 
+  (* "header-dot-payload for version-2 claims, the payload segment for version-1 claims", by the version the
+     returned claims REPORT.  Operator / account / user / activation claims report the version that selected
+     their loader (version 1: set by the migration, C04_migrate_version; version 2: their nats section, which is
+     where the identifier read it).  Authorization claims have no version-1 form and report what their nats
+     section says whatever selected the loader: the loaders refuse them unless that IS the selecting version. *)
+  Theorem C01_auth_reported_version : forall tok a,
+    decode tok = Some a -> (a_kind a = KAuthRequest \/ a_kind a = KAuthResponse) ->
+    exists c0 c1 c2 data i,
+      split dot tok = [c0; c1; c2] /\ b64dec c1 = Some data /\ parse_ident data = Some i /\
+      a_layout a = (if (id_nats_version i <=? 1)%Z then LV1 else LV2).
+  Proof. exact (auth_reported_version b64dec parse_header parse_ident unmarshal_ok issuer_of verify role_of). Qed.
+
   Theorem C01_decode_typed_authentic : forall k tok a,
     decode_typed k tok = Some a ->
     a_kind a = k /\
@@ -78,6 +90,7 @@ End C01.
 
 Print Assumptions C01_split_exact.
 Print Assumptions C01_decode_authentic.
+Print Assumptions C01_auth_reported_version.
 Print Assumptions C01_decode_typed_authentic.
 Print Assumptions C01_decode_generic_authentic.
 Print Assumptions C01_other_layout_rejected.
